@@ -37,6 +37,9 @@ pub struct TestBlock {
     pub code: u8,
     /// pass | wrong-output | wrong-code | missing-output
     pub outcome: String,
+    /// if not empty: the command is `cat <<EOF` with these lines as `> ` continuation lines (they are also the output)
+    #[serde(default)]
+    pub heredoc: Vec<String>,
 }
 
 #[derive(Clone, Debug, Serialize, Deserialize)]
@@ -46,9 +49,37 @@ pub struct Case {
     pub final_newline: bool,
 }
 
+fn sh_word(w: &str) -> String {
+    if w.chars().all(|c| c.is_ascii_alphanumeric() || c == '-') {
+        w.to_string()
+    } else {
+        format!("'{w}'")
+    }
+}
+
 impl TestBlock {
+    /// the output lines of the command
+    fn out_lines(&self) -> Vec<String> {
+        if self.heredoc.is_empty() {
+            self.words.clone()
+        } else {
+            self.heredoc.clone()
+        }
+    }
+    /// `$ ...` line plus `> ...` continuation lines
+    fn command_lines(&self) -> Vec<String> {
+        if self.heredoc.is_empty() {
+            return vec![format!("$ {}", self.command())];
+        }
+        let mut v = vec!["$ cat <<'EOF'".to_string()];
+        for l in &self.heredoc {
+            v.push(format!("> {l}"));
+        }
+        v.push(if self.code != 0 { format!("> EOF\n> (exit {})", self.code) } else { "> EOF".to_string() });
+        v.join("\n").split('\n').map(|s| s.to_string()).collect()
+    }
     fn command(&self) -> String {
-        let mut parts: Vec<String> = self.words.iter().map(|w| format!("echo {w}")).collect();
+        let mut parts: Vec<String> = self.words.iter().map(|w| format!("echo {}", sh_word(w))).collect();
         if self.code != 0 {
             parts.push(format!("(exit {})", self.code));
         }
@@ -58,19 +89,25 @@ impl TestBlock {
             parts.join("; ")
         }
     }
+    /// fence length actually used: longer than any backtick run at the start of a body line
+    fn fence_len(&self) -> usize {
+        let longest = self.out_lines().iter().map(|l| l.chars().take_while(|c| *c == '`').count()).max().unwrap_or(0);
+        self.fence.max(longest + 1).max(3)
+    }
     fn lines(&self) -> Vec<String> {
-        let mut v = vec![format!("{}scrut{}", "`".repeat(self.fence), self.config)];
+        let fence = self.fence_len();
+        let mut v = vec![format!("{}scrut{}", "`".repeat(fence), self.config)];
         v.extend(self.comments.iter().cloned());
-        v.push(format!("$ {}", self.command()));
+        v.extend(self.command_lines());
         match self.outcome.as_str() {
             "wrong-output" => {
-                for w in &self.words {
+                for w in &self.out_lines() {
                     v.push(format!("not-{w}"));
                 }
                 v.push("extra wrong line".into());
             }
             "missing-output" => {}
-            _ => v.extend(self.words.iter().cloned()),
+            _ => v.extend(self.out_lines()),
         }
         match self.outcome.as_str() {
             "wrong-code" => v.push(format!("[{}]", if self.code == 7 { 8 } else { 7 })),
@@ -80,11 +117,11 @@ impl TestBlock {
                 }
             }
         }
-        v.push("`".repeat(self.fence));
+        v.push("`".repeat(fence));
         v
     }
     fn passes(&self) -> bool {
-        self.outcome == "pass" || (self.outcome == "missing-output" && self.words.is_empty())
+        self.outcome == "pass" || (self.outcome == "missing-output" && self.out_lines().is_empty())
     }
 }
 
@@ -196,7 +233,8 @@ fn split_doc(text: &str) -> (Vec<String>, Vec<FoundBlock>) {
     (outside, blocks)
 }
 
-const WORDS: &[&str] = &["alpha", "beta", "gamma", "delta", "x1", "hello-world", "ok", "zeta"];
+const WORDS: &[&str] = &["alpha", "beta", "gamma", "delta", "x1", "hello-world", "ok", "zeta", "alpha", "beta", "```text", "````", "```", "`tick`", "two words"];
+const HEREDOC_LINES: &[&str] = &["line one", "", "trail  ", "  lead", "last", "```sh", ""];
 
 fn gen_test(rng: &mut Rng) -> TestBlock {
     let n = rng.below(4);
@@ -210,6 +248,7 @@ fn gen_test(rng: &mut Rng) -> TestBlock {
         words,
         code,
         outcome,
+        heredoc: if rng.chance(1, 5) { (0..1 + rng.below(4)).map(|_| rng.pick(HEREDOC_LINES).to_string()).collect() } else { vec![] },
     }
 }
 
@@ -319,6 +358,12 @@ impl Monitor for C10e {
             if tests.iter().any(|t| !t.comments.is_empty()) {
                 f.push("comments");
             }
+            if tests.iter().any(|t| !t.heredoc.is_empty()) {
+                f.push("multiline-command");
+            }
+            if tests.iter().any(|t| t.out_lines().iter().any(|l| l.starts_with("```"))) {
+                f.push("fence-like-output");
+            }
             if f.is_empty() {
                 "plain".to_string()
             } else {
@@ -358,9 +403,11 @@ impl Monitor for C10e {
             if comments.len() != t.comments.len() || comments.iter().zip(t.comments.iter()).any(|(a, b)| *a != b) {
                 return bad("comments-lost", format!("block {i}: comments {:?}, expected {:?}", comments, t.comments), &after1);
             }
-            let cmd_line = format!("$ {}", t.command());
-            if !fb.body.iter().any(|l| *l == cmd_line) {
-                return bad("command-changed", format!("block {i}: command line {cmd_line:?} not found in {:?}", fb.body), &after1);
+            let cmd_lines = t.command_lines();
+            let at = fb.body.iter().position(|l| *l == cmd_lines[0]);
+            let same = at.is_some_and(|a| fb.body.len() >= a + cmd_lines.len() && fb.body[a..a + cmd_lines.len()] == cmd_lines[..]);
+            if !same {
+                return bad("command-changed", format!("block {i}: command lines {cmd_lines:?} not found in {:?}", fb.body), &after1);
             }
             if t.passes() {
                 let orig = t.lines();
@@ -437,6 +484,20 @@ impl Monitor for C10e {
                     t2.config = String::new();
                     t2.comments = vec![];
                     t2.fence = 3;
+                    c.blocks[i] = Block::Test(t2);
+                    v.push(c);
+                }
+                for w in 0..t.words.len() {
+                    let mut c = case.clone();
+                    let mut t2 = t.clone();
+                    t2.words.remove(w);
+                    c.blocks[i] = Block::Test(t2);
+                    v.push(c);
+                }
+                for w in 0..t.heredoc.len() {
+                    let mut c = case.clone();
+                    let mut t2 = t.clone();
+                    t2.heredoc.remove(w);
                     c.blocks[i] = Block::Test(t2);
                     v.push(c);
                 }
